@@ -120,6 +120,21 @@ let handle kind c =
     (match spec_counts, rf with
      | Some _, None -> prop "read-faithful" (Printf.sprintf "phase %s: ReadFile fails on a well-formed file of %d bytes" phase (List.length data))
      | _ -> ())
+  | "readres" ->
+    (* the model of Read / ReadFile is a function of the file's contents: it has no state to
+       leave behind; the implementation must not either *)
+    let reads = next_int c in
+    let maps0 = next_int c in
+    let maps1 = next_int c in
+    let fds0 = next_int c in
+    let fds1 = next_int c in
+    if maps0 >= 0 && maps1 > maps0 then
+      prop "read-leaves-mapping"
+        (Printf.sprintf "%d reads (Read / ReadFile) left %d additional mappings of the counter file in the process (%d before, %d after)"
+           reads (maps1 - maps0) maps0 maps1);
+    if fds0 >= 0 && fds1 > fds0 then
+      prop "read-leaves-descriptor"
+        (Printf.sprintf "%d reads left %d additional open file descriptors (%d before, %d after)" reads (fds1 - fds0) fds0 fds1)
   | k -> diff "unknown-case-kind" ~model:k ~impl:"-"
 
 let () = run_file Sys.argv.(1) handle
